@@ -70,6 +70,8 @@ def compile_pattern(pattern: str) -> Union[ast.expr, List[ast.stmt]]:
             continue
     if tree is None:
         raise AnalysisError(f"pattern does not parse: {pattern!r}")
+    from .core import canonicalise_comparisons
+    canonicalise_comparisons(tree)  # patterns are matched against canonicalised modules
     body = tree.body
     out: Union[ast.expr, List[ast.stmt]]
     if len(body) == 1 and isinstance(body[0], ast.Expr):
